@@ -73,7 +73,7 @@ def provOKB (ch : Chain) : Bool :=
   (List.range ch.length).all fun i =>
     let f := ch.get i
     f.pos == i && f.mcRet &&
-    f.usedByRet.all fun e => !f.c.ret.contains e.1 || e.2.all fun q => decide (q < i) && (ch.get q).recvTypes.contains e.1
+    f.usedByRet.all fun e => !f.c.ret.contains e.1 || e.1 == tUnused || e.2.all fun q => decide (q < i) && (ch.get q).recvTypes.contains e.1
 
 def allJustifiedB (ch : Chain) : List Nat :=
   (ch.filter fun f => f.inc && !justifiedB ch f).map (·.c.id)
